@@ -417,14 +417,14 @@ CHECKS += [
 ]
 
 CHECKS += [
-    dict(property_id="C12", category="proof", engine=E1,
+    dict(property_id="C12", category="other", engine=E1,
          text="10 circuits with SYMBOLIC angles (parametrised gates, nested controlled/adjoint/power wrappers such as C(Adjoint(S)) and Pow(Adjoint(S)), multi-controlled gates, "
               "nested work-wire users) through the REAL qp.transforms.decompose for 4 target gate sets, graph system disabled and enabled, work-wire budgets 0-2. Per run: a "
               "decomposition error is accepted; otherwise every returned operator is a member of the gate set (conditionals count as their base), at most num_work_wires wires "
               "are allocated simultaneously, z3 proves U_out == U_in for ALL angles with work wires restored to |0> (measurement-based results: every outcome branch is "
               "proportional to U_in and the weights add up to 1), and with the graph enabled the per-operator resource estimate equals the emitted gate counts when every "
               "selected rule declares exact resources.",
-         note=PROOF_NOTE + " Instances whose symbolic execution hits the library's recursion guard or exceeds 160 operators / 4 circuit wires keep the structural obligations only (listed as unsupported). "
+         note=PROOF_NOTE + " Instances whose symbolic execution hits the library's recursion guard or exceeds 160 operators / 4 circuit wires keep the structural obligations only (listed as unsupported); category 'other' because two 100-gate instances stay inconclusive (z3 timeout). "
               "Outside: gridsynth / Clifford+T approximation, max_expansion, fixed_decomps / alt_decomps, device preprocessing.",
          technique="lifted execution of the decompose transform on z3 circle-polynomial terms; z3 QF_NRA equality proofs of circuit unitaries; structural gate-set / budget / estimate comparison"),
 ]
